@@ -44,6 +44,8 @@ pub enum Frag {
     Stop(u8),
     /// call a bank-0 routine that runs through 0x3FFF into slot 0 of the mapped bank
     FallThrough,
+    /// write LCDC (any value, the LCD-enable bit included), scroll and window registers
+    LcdCfg(u8, u8, u8),
 }
 
 #[derive(Clone, Debug, Serialize, Deserialize)]
@@ -608,6 +610,14 @@ pub fn assemble(p: &ProgSpec) -> (RomImage, ProgInfo) {
                 }
             }
             Frag::Ime(on) => a.b(if *on { 0xfb } else { 0xf3 }),
+            Frag::LcdCfg(lcdc, a1, a2) => {
+                a.ld_a(*lcdc);
+                a.ldh_a(0x40);
+                a.ld_a(*a1);
+                a.ldh_a(0x42 + (*a2 & 1));
+                a.ld_a(*a2);
+                a.ldh_a(0x4a + (*a1 & 1));
+            }
             Frag::FallThrough => {
                 info.uses_far_call = true;
                 a.call(0x3ff8);
@@ -649,6 +659,7 @@ pub fn frag_strategy() -> impl Strategy<Value = Frag> {
         1 => any::<bool>().prop_map(Frag::Ime),
         1 => any::<u8>().prop_map(Frag::Stop),
         1 => Just(Frag::FallThrough),
+        1 => (prop_oneof![any::<u8>(), Just(0x11u8), Just(0x91u8), Just(0x00u8)], any::<u8>(), any::<u8>()).prop_map(|(l, a, b)| Frag::LcdCfg(l, a, b)),
     ]
 }
 
